@@ -345,6 +345,7 @@ package block
 //@   observe cbk := call createBlock
 //@   observe sbd1 := call SaveBlockData@1
 //@   observe apb := call applyBlock
+//@   observe gsig := call GetSignature
 //@   modifies m.lastState, m.lastBatchData, m.headerCache.seen,
 //@            durable m.store.height, durable m.store.stateAt, durable m.store.hasState, durable m.store.meta["l"], durable m.store.metaHas["l"],
 //@            durable m.store.has[m.store.height + 1], durable m.store.hdrAt[m.store.height + 1], durable m.store.hsigAt[m.store.height + 1],
@@ -359,6 +360,9 @@ package block
 //@                       && m.store.hdrAt[m.store.height].appHash == old(val(m.lastState.AppHash))
 //@                       && (m.store.height > 1 ==> old(m.lastState.LastBlockTime) <= TimeOfU64(m.store.hdrAt[m.store.height].time))
 //@                       && m.store.hdrAt[m.store.height].dataHash == CommitTxs(m.store.txsAt[m.store.height])
+// the first block of a chain has no predecessor, whatever the initial height is: nothing is loaded from below it
+// (a chain that starts at height 5 records height 4 before its first block - there is no block 4)
+//@   ensures [no-predecessor-below-initial-height] old(m.store.height) < m.genesis.InitialHeight ==> gsig.count == 0
 //@   ensures [link] m.store.height == old(m.store.height) + 1 ==> Linked(m, m.store, m.store.height)
 // the data stream is hash-linked as well (go-header verifies Data against its predecessor by it): the metadata of a
 // committed block names the hash of the previous block's data - also when the block was found pending in the store
@@ -832,7 +836,7 @@ package block
 //@   ensures [mark-every-genuine] !sdi ==> (pu && pu.res0 != nil) || (fpd && fpd.res0 != nil) || len(signedData.Data.Txs) == 0 || signedData.Data.Metadata == nil || (iv && !iv.res0)
 
 //@ func (m *Manager) processNextDAHeaderAndData(ctx) (err)
-//@   property C02 C09
+//@   property C02 C09 C03:all-blobs-examined,ranges-over-the-fetch,non-empty-handled,each-blob,fetched-means-done
 //@   requires [wiring] m.metrics != nil && m.daHeight != nil && m.headerCache != nil && m.dataCache != nil && m.logger != nil && ctx != nil && len(m.genesis.ProposerAddress) > 0
 //@   observe fb := call fetchBlobs
 //@   observe hph := call handlePotentialHeader
@@ -851,6 +855,11 @@ package block
 //@                       && ((hpd.count == 1 && hpd.arg2 == bz && hpd.arg3 == daHeight) <==> !hph.res0) && hpd.count <= 1
 //@   loop 2 invariant [non-empty-handled] rangeindex >= 0 && rangeindex < len(blobsResp.Data) && len(blobsResp.Data[rangeindex]) != 0 ==> hph.count == 1
 //@   loop 2 invariant [same-height] daHeight == m.daHeight.v && m.daHeight.v == old(m.daHeight.v) && fb && fb.res1 == nil && fb.arg2 == daHeight
+// every blob of the height is looked at, however many there are: what third parties post in front of the proposer's
+// blobs never hides them (the namespace is open, no bound on the proposer's own traffic bounds what a height holds)
+//@   loop 2 invariant [index-bounds] rangeindex >= -1 && rangeindex < len(blobsResp.Data)
+//@   loop 2 after [all-blobs-examined] rangeindex == len(blobsResp.Data)
+//@   loop 2 after [ranges-over-the-fetch] blobsResp.Data == fb.res0.Data
 
 //@ func (m *Manager) areAllErrorsHeightFromFuture(err) (r)
 //@   ensures [any] true
